@@ -718,9 +718,16 @@ def explore(job):
 
     import time
     t0 = time.process_time()
-    res = bfs(build, enabled, canon, check, max_depth=depth, initial=[tuple(e) for e in initial])
+    # a clean part has a few hundred (depth 5) to a few ten thousand (depth 7) states; a tree whose registries leak
+    # never merges states and would run for hours - bounded, and reported, instead
+    res = bfs(build, enabled, canon, check, max_depth=depth, initial=[tuple(e) for e in initial],
+              max_states=40000 if depth <= 5 else 400000)
     cpu = time.process_time() - t0
     H.close_all()
+    if res.capped and not res.violations:
+        res.violations.append(("C08:state-space-exceeds-bound", "the reachable states of one part (%s stack, kinds %s) exceed the bound that a clean "
+                               "tree stays far below: histories no longer merge, something accumulates in the registries or layers" % (variant, kinds),
+                               {"variant": variant, "history": [list(e) for e in initial], "kinds": kinds}, {"states": res.states}))
     return {"job": (variant, kinds, [list(e) for e in initial], depth, mode), "states": res.states,
             "transitions": res.transitions, "cpu_s": cpu, "max_depth": res.max_depth + len(initial), "violations": res.violations,
             "kinds_seen": sorted(stats["kinds_seen"]), "evclasses": sorted(stats["evclasses"], key=str),
@@ -788,6 +795,7 @@ def _run_histories(ctx):
     per_variant = {}
     found = []
     obsvec = set()
+    stopped_early = False
     for res in ctx.pimap(explore, jobs):
         states += res["states"]
         transitions += res["transitions"]
@@ -802,6 +810,13 @@ def _run_histories(ctx):
         pv["transitions"] += res["transitions"]
         pv["jobs"] += 1
         found.extend(res["violations"])
+        if res["violations"]:
+            # the first part (in the fixed job order) that violates is enough: the remaining parts would only add
+            # run time on a broken tree
+            ctx.note("part %s violates: remaining parts not explored" % (res["job"][:2],))
+            ctx.close()
+            stopped_early = True
+            break
         if res["sample"]:
             ctx.sample({"variant": res["job"][0], "kinds": res["job"][1], "history": [fmt_ev(e) for e in res["sample"][0]]})
     # report the smallest history per signature, independent of the visiting order
@@ -814,7 +829,7 @@ def _run_histories(ctx):
         "states": states,
         "transitions": transitions,
         "traces_validated_against_impl": transitions + len(jobs),
-        "exhaustive": True,
+        "exhaustive": not stopped_early,
         "max_depth": maxdepth,
         "distinct_outcomes": len(obsvec),
         "bfs_runs": len(jobs),
